@@ -134,6 +134,12 @@ class SymNumText:
     def __contains__(self, item):
         return item == "."
 
+    def split(self, sep=None, maxsplit=-1):
+        """a positional numeral split at its point: cutting its fraction to fewer digits truncates the number it denotes"""
+        if sep != "." or self.d is None or isinstance(self.d, SymInt):
+            raise Unsupported("split of a formatted number")
+        return [_IntPart(self.value), _FracOfNumeral(self)]
+
     def strip(self):
         return self
 
@@ -143,6 +149,19 @@ class SymNumText:
         return NotImplemented
 
     __hash__ = None
+
+
+class _FracOfNumeral:
+    def __init__(self, num):
+        self.num, self.x = num, num.value
+
+    def __getitem__(self, sl):
+        if not isinstance(sl, slice) or sl.start not in (None, 0) or sl.step not in (None, 1):
+            raise Unsupported("fraction digits indexed other than [:d]")
+        d = sl.stop
+        if isinstance(d, SymInt):
+            d = d.__index__()
+        return _FracTrunc(self.x, min(d, self.num.d))
 
 
 class SymPosText(SymNumText):
@@ -192,15 +211,26 @@ def sym_str(x="", *a):
     return str(x, *a)
 
 
-def format_float_positional(x, *a, **k):
+def format_float_positional(x, precision=None, unique=True, fractional=True, trim="k", *a, **k):
     import numpy as np
 
     if isinstance(x, (SymReal, SymInt)):
+        if a or k or not unique or not fractional:
+            raise Unsupported("format_float_positional with options beyond precision / trim")
+        if precision is not None:
+            # at most `precision` fraction digits, rounded (ties as numpy resolves them are outside the model: a
+            # counterexample is confirmed by the concrete replay)
+            return SymNumText("round", SymReal(_toreal(x.e)), precision)
         return SymPosText(SymReal(_toreal(x.e)))
+    if precision is not None:
+        k["precision"] = precision
+    k.update(unique=unique, fractional=fractional, trim=trim)
     return np.format_float_positional(x, *a, **k)
 
 
 def sym_format(value, spec=""):
+    if isinstance(value, (SymReal, SymInt)) and spec == "f":
+        return SymNumText("round", SymReal(_toreal(value.e)), 6)
     if isinstance(value, (SymReal, SymInt)) and spec.startswith(".") and spec.endswith("f"):
         from . import strs
 
